@@ -272,7 +272,10 @@ class TreeContextMixin:
                 return self.create_value(scope_node).as_context()
             elif scope_node.type in ('comp_for', 'sync_comp_for'):
                 parent_context = from_scope_node(parent_scope(scope_node.parent))
-                if node.start_pos >= scope_node.children[-1].start_pos:
+                # Only the iterable (after `in`) is not part of the scope, an
+                # `if` or another `for` that comes after it is.
+                iterable = scope_node.children[scope_node.children.index('in') + 1]
+                if iterable.start_pos <= node.start_pos < iterable.end_pos:
                     return parent_context
                 return CompForContext(parent_context, scope_node)
             raise Exception("There's a scope that was not managed: %s" % scope_node)
